@@ -2,7 +2,8 @@
    Only pinned statements; proofs in Proofs/DerivedOk.v. *)
 From Coq Require Import List Bool.
 From GV Require Import Base.Outcome Base.AMap Model.GState Model.Creation Model.Query Model.Derived Spec.AGraph.
-From GV Require Import Proofs.WFDefs Proofs.DerivedOk.
+From Coq Require Import Permutation.
+From GV Require Import Proofs.WFDefs Proofs.DerivedOk Proofs.DerivedContent.
 Import ListNotations.
 
 Section C15.
@@ -48,4 +49,47 @@ Section C15.
     In n (filter (fun n => mem_name teqb (nname n) xs) (get_all_nodes g)) <->
     In n (nodes_vec g) /\ In (nname n) xs.
   Proof. exact (subgraph_nodes_input teqb teqb_spec). Qed.
+
+  (* ---- exact content (on every coherent = every reachable source graph) ---- *)
+  (* induced subgraph: the nodes of S that exist, in their original order and with their
+     attributes, and exactly the stored edges with both ends in S; never panics *)
+  Theorem C15_subgraph_content : forall (g : gstate) xs,
+    WF g ->
+    exists h, get_subgraph teqb tltb g xs = Ok h /\
+              nodes_vec h = filter (fun n => mem_name teqb (nname n) xs) (nodes_vec g) /\
+              sp h = sp g /\
+              Permutation (flat_map snd (edges h))
+                (filter (fun e => mem_name teqb (eu e) xs && mem_name teqb (ev e) xs) (flat_map snd (edges g))).
+  Proof. exact (get_subgraph_content teqb tltb teqb_spec tltb_total). Qed.
+
+  (* reweighting keeps nodes and edges (endpoints, attributes, multiplicity) and sets every weight *)
+  Theorem C15_set_weights_content : forall (g : gstate) w,
+    WF g ->
+    exists h, set_all_edge_weights teqb tltb g w = Ok h /\
+              nodes_vec h = nodes_vec g /\ sp h = sp g /\
+              Permutation (flat_map snd (edges h))
+                (map (fun e => mkedge (eu e) (ev e) w (eattr e)) (flat_map snd (edges g))).
+  Proof. exact (set_all_edge_weights_content teqb tltb teqb_spec tltb_total). Qed.
+
+  (* reverse flips every edge keeping nodes, weights, attributes and parallel edges *)
+  Theorem C15_reverse_content : forall (g : gstate),
+    WF g -> directed (sp g) = true ->
+    exists h, reverse teqb tltb g = Ok h /\
+              nodes_vec h = nodes_vec g /\ sp h = sp g /\
+              Permutation (flat_map snd (edges h)) (map reversed (flat_map snd (edges g))).
+  Proof. exact (reverse_content teqb tltb teqb_spec tltb_total). Qed.
+
+  Theorem C15_reverse_twice : forall (g h k : gstate),
+    WF g -> WF h -> reverse teqb tltb g = Ok h -> reverse teqb tltb h = Ok k ->
+    nodes_vec k = nodes_vec g /\ Permutation (flat_map snd (edges k)) (flat_map snd (edges g)).
+  Proof. exact (reverse_involutive teqb tltb teqb_spec tltb_total). Qed.
+
+  (* collapse: nodes kept; one edge per group of parallel edges, its weight the group's sum *)
+  Theorem C15_to_single_edges_content : forall (g : gstate),
+    WF g -> multi (sp g) = true ->
+    exists h, to_single_edges teqb tltb g = Ok h /\
+              nodes_vec h = nodes_vec g /\
+              multi (sp h) = false /\ directed (sp h) = directed (sp g) /\
+              Permutation (flat_map snd (edges h)) (map collapse_edges (edges g)).
+  Proof. exact (to_single_edges_content teqb tltb teqb_spec tltb_total). Qed.
 End C15.
